@@ -40,11 +40,33 @@ HANDWRITTEN = [
     ('designator-depth-33', 'struct S { int a; } ;\nint x[1]' + '[1]' * 34 + ' = {' + '[0]' * 35 + ' = 1};\n'),
     ('attr-eof', '[[foo('),
     ('div-zero', 'int x = 1/0; int y = 1%0; long z = (-0x7fffffffffffffff-1) / -1;\n'),
+    ('vla-zero-size-elements', 'struct S { int x[0]; }; typedef int Z[0]; int f(int n) { struct S a[n]; Z b[n]; Z c[n][2]; struct S d[2][n]; return sizeof a + sizeof b + sizeof c + sizeof d; }\n'),
+    # round 13: growth of the macro context stack in the middle of a substitution (chains of function-like macros handing
+    # their parameter down), over-aligned automatic structs with initialised bit-fields, variadic macros invoked without the
+    # variable part after an invocation that had one, asm labels on block-scope redeclarations of unlabelled file-scope names
+] + [('macro-chain-%d' % n, '#define M0(x) x\n' + ''.join('#define M%d(x) M%d(x)\n' % (k, k - 1) for k in range(1, n + 1)) +
+      'int v%d = M%d(5) + M%d(M%d(1) * M%d(2));\n' % (n, n, n, n // 2, n - 1)) for n in (7, 9, 10, 11, 12, 20, 21, 22, 24, 41, 42, 43, 45, 90, 200)] + [
+    ('macro-chain-two-params', '#define N0(x, y) x y\n' + ''.join('#define N%d(x, y) N%d(y, x)\n' % (k, k - 1) for k in range(1, 31)) + 'int N30(a, = 1;) int N28(b, = 2;) int N29(= 3;, c)\n'),
+    ('aligned-struct-bitfield-init', 'struct A { _Alignas(16) int a; int b : 3; int c; }; struct B { char p; short q : 5; _Alignas(32) long r; }; struct C { _Alignas(64) char z; unsigned w : 9, v : 7; };\n'
+                                     'struct F { unsigned ready : 1; unsigned mode : 3; _Alignas(16) int payload[3]; };\n'
+                                     'int f(int k) { struct A x = { 1, 2, 3 }; struct B y = { 1, 2, 3 }; struct C z = { .w = 5, .v = 6 }; struct A xs[2] = { { .b = 1 } }; struct F g = { 1, 5, { 7 } };\n'
+                                     '  return x.b + y.q + z.w + xs[0].b + g.mode + k; }\n'),
+    ('variadic-omitted', '#define LOG(fmt, ...) f(fmt, __VA_ARGS__)\n#define S(a, ...) #a #__VA_ARGS__\nint f(const char *, ...);\nint g(void) { return LOG("a", 1, 2) + LOG("x"); }\nconst char *s = S(1, 2) S(3);\n'),
+    ('variadic-omitted-first', '#define LOG(fmt, ...) f(fmt, __VA_ARGS__)\nint f(const char *, ...);\nint g(void) { return LOG("x"); }\n'),
+    ('variadic-omitted-str', '#define S(a, ...) #a #__VA_ARGS__\nconst char *s = S(1, 2, 3) S(4) S(5);\n'),
+    ('vm-parameter-argument-conversion', 'void g(int n, int (*a)[n]); void g2(int n, int m, int a[n][m], int (*b)[m][n]); long d(int n, int (*a)[n]) { return sizeof *a; }\n'
+                                         'long h(void *q, int (*r)[3]) { g(3, q); g(3, r); g2(2, 3, q, q); return d(4, q) + d(3, r); }\n'),
+    ('asm-label-block-extern-object', 'int c; int f(void) { extern int c __asm__("x"); return c; }\n'),
+    ('asm-label-block-extern-func', 'int g(void); int f(void) { int g(void) __asm__("y"); return g(); }\n'),
+    ('asm-label-block-extern-reverse', 'int c __asm__("x"); int g(void) __asm__("y"); int f(void) { extern int c; int g(void); return c + g(); }\n'),
+    ('asm-label-block-extern-same', 'int c __asm__("x"); int f(void) { extern int c __asm__("x"); return c; }\n'),
     ('offsetof-no-type', 'int x = __builtin_offsetof(, x);\n'), ('zero-size-elements', 'int a[5][0]; int b[0][3]; struct { int x[0]; } c[4];\n'),
     ('addr-deref-string', 'char *p = &*"abc"; int a[3]; int *q = &*a; char c = *"x";\n'), ('struct-condition', 'struct s { int a; } x; int f(void) { return x ? 1 : 2; }\n'),
     ('for-missing-semicolon', 'void f(void) { int i; for (i = 0 i < 3; ) ; }\n'), ('for-missing-semicolon2', 'void f(void) { for (int i = 0; i < 3 i++) ; }\n'),
     ('struct-incdec', 'struct s { int a; } x; void f(void) { x++; }\n'), ('void-cast-int', 'int f(void) { return (int)(void)0; }\n'),
     ('undef-inside-own-call', '#define F(x) x + x\nint a = F(\n#undef F\n1);\n#define G(x) x\nint b = G(\n#undef G\n#define G(y) y y\n2) G(3);\n'),
+    ('define-identical-inside-call', '#define H(x) x + x\nint c = H(\n#define H(x) x + x\n4);\n#define W(a, b) #a b\nconst char *s = W(q,\n#define W(a, b) #a b\n"r");\nint d = H(1);\n'),
+    ('define-identical-after-use', '#define H(x) x + x\nint c = H(1);\n#define H(x) x + x\nint d = H(2);\n#define H(x) x + x\n#define K 1\n#define K 1\nint e = K;\n'),
     ('define-inside-call', '#define H(x) x\nint c = H(\n#define H(x) x x\n4);\n'),
     ('udiv-zero-init', 'unsigned a = 5u / 0u;\n'), ('urem-zero-enum', 'enum { E = 7u % 0u };\n'), ('udiv-zero-array', 'char b[sizeof(int) / 0];\n'),
     ('urem-zero-case', 'int f(int v) { switch (v) { case 1ul % 0: return 1; } return 0; }\n'), ('udiv-zero-bitfield', 'struct s { int a : 8u / 0u; };\n'),
